@@ -377,4 +377,49 @@ func runC18(p *eng.Prog, r *eng.Report, tier string) {
 		}
 		c.r.Floor("C18.7", "p.To = c.addr in JoinPresence", n, 1)
 	}
+	// C18.12 the occupant address that is requested (and under which the
+	// channel waits for the room's self-presence) reflects the Nick option: the
+	// options are applied before the channel is registered, and under
+	// newNick != "" the presence's To is assigned the address built with
+	// WithResource(newNick). (Applying the options after p.To was set asks for
+	// the old nickname and reports success for the old address.)
+	if jp := c.fn("C18.12", "muc", "(*Channel).JoinPresence"); jp != nil {
+		g := jp.Graph()
+		nreg := 0
+		for _, mu := range jp.MapUpdates() {
+			if k, _ := jp.FieldClass(mu.Map); k != "muc.Client.managed" || mu.Delete {
+				continue
+			}
+			nreg++
+			pt, _ := g.Where(mu.Node)
+			// the option loop may run zero times: what must hold is that no path
+			// reaches the registration and applies an option afterwards
+			bad := ""
+			for _, cl := range jp.AllCalls() {
+				if t := jp.Info().TypeOf(cl.Fun); t != nil && eng.TypeStr(t) == "muc.Option" {
+					cp, _ := g.Where(cl)
+					if g.Reachable(g.After(pt), cp, nil, nil) {
+						bad = "an option is applied at " + c.p.Pos(cl.Pos()) + " after the channel was registered: the Nick option cannot change the address that is requested"
+					}
+				}
+			}
+			c.r.Check("C18.12", jp, "options applied before the channel is registered", "O: no option is applied after the store into Client.managed", mu.Node.Pos(), bad == "", bad)
+		}
+		c.r.Floor("C18.12", "registrations in Channel.JoinPresence", nreg, 1)
+		nnick := 0
+		for _, w := range jp.Writes() {
+			sel, ok := ast.Unparen(w.LHS).(*ast.SelectorExpr)
+			if !ok || sel.Sel.Name != "To" || w.RHS == nil {
+				continue
+			}
+			wp, _ := g.Where(w.Stmt)
+			if okd, _ := g.Dominated(wp, "!eq(*.newNick,\"\")"); !okd {
+				continue
+			}
+			if eng.Glob("jid.JID.WithResource[*](*.newNick)#0", jp.Norm(w.RHS, &wp)) {
+				nnick++
+			}
+		}
+		c.r.Check("C18.12", jp, "requested address carries the new nickname", "K: under newNick != \"\" the presence's To is assigned addr.WithResource(newNick)", jp.Pos(), nnick >= 1, "no assignment of WithResource(newNick) to the presence's To under the Nick option: the join asks for the old nickname")
+	}
 }
